@@ -13,7 +13,8 @@
 //!   c5rt     <picture>        save, load the bytes:  [1, n, bytes…, <load>] | [0] when saving fails
 //!   c5save   <picture>        [1, n, bytes…] | [0]
 //!   c5load   <fmt> <hex>      <load>
-//!   c5resave <fmt> <compress> <sauce> <hex>   load, save again, load:  <load> ++ ([1, n, bytes…, <load>] | [0]) (nothing after a failed first load)
+//!   c5resave <fmt> <compress> <sauce> <hex>   load, save again, load:  <load> ++ ([1, n, bytes…, <load>] | [0]) (nothing after a failed first load;
+//!                                             [-1] when the first load panics)
 //!   <load> = [0] when loading fails, else [1] ++ observation:
 //!     w, h, ice_mode, layer_w, layer_h, line_count, palette_mode, font_mode,
 //!     npal, (r,g,b)*, nfonts, (slot, fw, fh, length, ndata, data…)* by ascending slot,
@@ -217,7 +218,18 @@ pub fn run(kind: &str, args: &[&str]) -> Option<Obs> {
             opt.compress = args[1] == "1";
             opt.save_sauce = args[2] == "1";
             opt.lossles_output = true;
-            match load(&mut v, fmt, &unhex(args[3])) {
+            // a loader that panics on this file did not accept it (that is property C02's subject): [-1]
+            let bytes = unhex(args[3]);
+            let first = std::panic::catch_unwind(|| {
+                let mut v1: Vec<i64> = Vec::new();
+                let r = load(&mut v1, fmt, &bytes);
+                (v1, r)
+            });
+            let Ok((v1, first)) = first else {
+                return Some(Ok(vec![-1]));
+            };
+            v.extend(v1);
+            match first {
                 Err(e) => return Some(Err(e)),
                 Ok(None) => {}
                 Ok(Some(buf)) => {
